@@ -626,7 +626,7 @@ class Models:
         name = re.sub(r"'[a-z_][a-z0-9_]*\b(?!')", "", name)   # lifetimes
         name = re.sub(r"\s+", " ", name)
         name = name.replace("< ", "<").replace(" >", ">").replace("& ", "&").replace("&mut  ", "&mut ")
-        name = name.replace("::<>", "").replace("<>", "")
+        name = name.replace("::<>", "").replace("<>", "").replace("<, ", "<")
         name = re.sub(r"\b(?:std|core|alloc)::(?:string|vec|option|result|borrow|boxed|cmp|rc|sync|path|time|collections(?:::btree_map|::hash_map|::btree|::hash)?)::(?=[A-Z])", "", name)
         name = re.sub(r"\b(?:std|alloc)::str::<impl str>", "core::str::<impl str>", name)
         name = re.sub(r"\b(?:std|alloc)::slice::<impl \[", "core::slice::<impl [", name)
@@ -953,7 +953,7 @@ def register_all(M):
 
     def slice_eq(c, m, a):
         return sbool(elem_eq(c, Slice(as_items(a[0])), Slice(as_items(a[1]))))
-    M.add(r"<&?&?\[.*\] as PartialEq(?:<.*>)?>::eq|core::slice::cmp::<impl PartialEq<.*> for \[.*\]>::eq|<Vec<.*> as PartialEq(?:<.*>)?>::eq|core::array::equality::<impl PartialEq<.*> for .*>::eq", slice_eq)
+    M.add(r"<&?&?\[.*\] as PartialEq(?:<.*>)?>::eq|core::slice::cmp::<impl PartialEq<.*> for \[.*\]>::eq|<Vec<.*> as PartialEq(?:<.*>)?>::eq|core::array::equality::<impl PartialEq<.*> for .*>::eq|<Cow<\[.*\]> as PartialEq<.*>>::eq", slice_eq)
     M.add(r"<&?&?\[.*\] as PartialEq(?:<.*>)?>::ne|core::slice::cmp::<impl PartialEq<.*> for \[.*\]>::ne", lambda c, m, a: sbool(z_not(elem_eq(c, Slice(as_items(a[0])), Slice(as_items(a[1]))))))
 
     def slice_starts_with(c, m, a):
@@ -1246,6 +1246,17 @@ def register_all(M):
                 return err(Opaque("ParseIntError(overflow)"))
         return ok(mk_int(z3.Extract(bits - 1, 0, total), ty))
     M.add(r"core::num::<impl (?P<ty>u8|u16|u32|u64|usize|i32|i64)>::from_str_radix", from_str_radix)
+
+    def regex_escape(c, m, a):
+        out = []
+        meta = [ord(x) for x in "\\.+*?()|[]{}^$#&-~"]
+        for ch in as_str(a[0]).chars:
+            is_meta = (ch.v in meta) if ch.concrete else z_or([ch.z() == x for x in meta])
+            if c.decide(is_meta):
+                out.append(SInt(92, "char"))
+            out.append(ch)
+        return StringBuf(out)
+    M.add(r"regex::escape", regex_escape)
 
     # ---- errors (opaque) ---------------------------------------------------------------------
     M.add(r"anyhow::__private::format_err|anyhow::error::<impl anyhow::Error>::msg::<.*>|anyhow::Error::msg::<.*>|anyhow::__private::must_use", lambda c, m, a: Opaque("anyhow::Error"))
